@@ -1005,6 +1005,53 @@ Section Obj.
     exact (loop_default_present kw _ [] _ S' hc0 n sl HND Hinn (fun _ _ => eq_refl) Hn Hs Hd EL).
   Qed.
 
+  (* a clock default that was not given: what is stored is the cleaned clock reading *)
+  Lemma step_default_now : forall K n s hc s' hc' sl p c0,
+    alookup n K = None -> amem n s = false -> slot_of c n = Some sl -> sdef sl = DNow -> skind sl = KTime p c0 ->
+    step K n s hc = Ok (s', hc') ->
+    exists us txt, alookup n s' = Some (PTime us txt) /\ ts_clean_now (vr_year_pad vr) p c0 (e_now ev) = Ok (us, txt).
+  Proof.
+    intros K n s hc s' hc' sl p c0 Hk Hf Hs Hd Hkd H. unfold step in H. rewrite assign_raw_spec in H. rewrite Hs, Hk in H.
+    destruct (slot_of_In n sl Hs) as [_ En]. subst n. apply amem_alookup_none in Hf.
+    unfold bind in H.
+    destruct (CP c sl allow interop vrefs s) as [[a b] | |] eqn:Ec; try discriminate. inv_ok H. cbn [fst].
+    unfold check_property, default_value, bind in Ec. rewrite Hf, Hd, Hkd in Ec.
+    destruct (ts_clean_now (vr_year_pad vr) p c0 (e_now ev)) as [[us txt] | |]; try discriminate.
+    cbn [fst snd] in Ec. unfold clean_present in Ec. rewrite alookup_aset_same in Ec. inv_ok Ec.
+    exists us, txt. rewrite alookup_aset_same. auto.
+  Qed.
+
+  Lemma loop_default_now : forall K l s hc S hcf n sl p c0,
+    NoDup l -> In n l -> (forall m, In m l -> amem m s = false) ->
+    alookup n K = None -> slot_of c n = Some sl -> sdef sl = DNow -> skind sl = KTime p c0 ->
+    LOOP K [] [] l s hc = Ok (S, hcf) ->
+    exists us txt, alookup n S = Some (PTime us txt) /\ ts_clean_now (vr_year_pad vr) p c0 (e_now ev) = Ok (us, txt).
+  Proof.
+    induction l as [| m rest IH]; intros s hc S hcf n sl p c0 ND Hin Hfr Hk Hs Hd Hkd H; [contradiction |].
+    rewrite loop_cons in H. unfold bind in H.
+    destruct (step K m s hc) as [[s1 h1] | |] eqn:Es; try discriminate. cbn [fst snd] in H.
+    inversion ND; subst. destruct Hin as [E | Hin].
+    - subst m. rewrite (loop_frame _ _ _ _ _ _ n H H2).
+      exact (step_default_now _ _ _ _ _ _ _ _ _ Hk (Hfr n (or_introl eq_refl)) Hs Hd Hkd Es).
+    - eapply (IH s1 h1 S hcf n sl); eauto.
+      intros m0 Hm0. unfold amem. rewrite (sos_frame _ _ _ m0 (step_shape _ _ _ _ _ _ Es)).
+      + apply Hfr. right. exact Hm0.
+      + intros E2. subst. contradiction.
+  Qed.
+
+  Lemma cg_default_now : forall fuel kw S dfl hc n sl p c0,
+    plain_dict kw = true ->
+    CG fuel c allow interop kw [] vrefs = Ok (PObject (cid c) S dfl hc) ->
+    alookup n kw = None -> slot_of c n = Some sl -> sdef sl = DNow -> skind sl = KTime p c0 ->
+    exists us txt, alookup n S = Some (PTime us txt) /\ ts_clean_now (vr_year_pad vr) p c0 (e_now ev) = Ok (us, txt).
+  Proof.
+    intros fuel kw S dfl hc n sl p c0 Hp H Hn Hs Hd Hkd.
+    destruct (cg_unfold fuel kw _ Hp H) as [AC [S' [hc0 [hc' [HND [Hin [EL Eo]]]]]]]. inversion Eo; subst.
+    assert (Hinn : In n (PN ++ [] ++ usort AC)).
+    { apply in_or_app. left. destruct (slot_of_In n sl Hs) as [Hsl En]. subst n. unfold PN. apply in_map. exact Hsl. }
+    exact (loop_default_now kw _ [] _ S' hc0 n sl p c0 HND Hinn (fun _ _ => eq_refl) Hn Hs Hd Hkd EL).
+  Qed.
+
   (* ---------------------------------------------------------------- nothing is stored that would be written as null / [] *)
   Definition nonnull_values (s : list (ustring * pval)) : Prop :=
     forall n v, alookup n s = Some v -> nullish (encode false v) = false.
